@@ -39,12 +39,14 @@ AWAIT = '''{ind}    elif _op == "await":
 '''
 
 
-def func(name, params, kind="plain", ind="", deco=None, rebind="a"):
+def func(name, params, kind="plain", ind="", deco=None, rebind="a", pre=None):
     extra = {"plain": "", "gen": YIELD, "coro": AWAIT}[kind].format(ind=ind + "    ")
     head = ""
     if deco:
         head += "%s@%s\n" % (ind, deco)
     head += "%s%sdef %s(%s):\n" % (ind, "async " if kind == "coro" else "", name, params)
+    if pre:
+        head += "%s    %s\n" % (ind, pre)
     return head + BODY.format(ind=ind + "    ", p=rebind, extra=extra) + "\n"
 
 
@@ -68,6 +70,12 @@ def traced_source():
     s += "\nclass Sub(Kls):\n"
     s += func("m_over", "self, a", ind="    ")
     s += "\n"
+    # nested functions that refer to themselves (recursion through a free variable): the function object is a
+    # local of its OWN frame, which is where the last lookup stage of get_func starts; nobody else holds it
+    s += "def _make_nested():\n"
+    s += func("rec_inner", "a, depth=0", ind="    ", pre="_me = rec_inner")
+    s += func("rec_gen", "a", ind="    ", kind="gen", pre="_me = rec_gen")
+    s += "    return {'rec': rec_inner, 'gen': rec_gen}\n\n\n_NESTED = _make_nested()\n\n\n"
     # a function that no lookup stage of get_func can reach (not a global, not on a class, no local)
     s += func("h_hidden", "a")
     s += "_HIDDEN = {'h': h_hidden}\ndel h_hidden\n"
@@ -96,11 +104,13 @@ TARGETS = {
         dict(name="Kls.m_cls", maker="lambda: M.Kls.m_cls", sig="M.Kls.__dict__['m_cls'].__func__", selfargs="[M.Kls]"),
         dict(name="Kls.m_cls(sub)", maker="lambda: M.Sub.m_cls", sig="M.Kls.__dict__['m_cls'].__func__", selfargs="[M.Sub]"),
         dict(name="Kls.m_static", maker="lambda: M.Kls.m_static", sig="M.Kls.__dict__['m_static'].__func__", selfargs="[]"),
+        dict(name="nested rec_inner", maker="lambda: M._NESTED['rec']", sig="M._NESTED['rec']", selfargs="[]"),
         dict(name="Kls.prop", maker="lambda: (lambda *a: OBJ.prop)", sig="M.Kls.__dict__['prop'].fget", selfargs="[OBJ]", noargs=True),
     ],
     "G": [
         dict(name="g_mod", maker="lambda: M.g_mod", sig="M.g_mod", selfargs="[]"),
         dict(name="Kls.g_meth", maker="lambda: OBJ.g_meth", sig="M.Kls.g_meth", selfargs="[OBJ]"),
+        dict(name="nested rec_gen", maker="lambda: M._NESTED['gen']", sig="M._NESTED['gen']", selfargs="[]"),
     ],
     "C": [
         dict(name="c_mod", maker="lambda: M.c_mod", sig="M.c_mod", selfargs="[]"),
